@@ -139,6 +139,21 @@ class Ctx:
         self.builds[name] = dict(cmd=cmd, bin=out, src=src)
         return out
 
+    def build_guestlibs(self, libs=(1, 2), indices=(0, 1, 2)):
+        """Shared objects for the dylib backend: one file per (library id, instance index)."""
+        d = os.path.join(self.out, 'guestlibs')
+        os.makedirs(d, exist_ok=True)
+        src = os.path.join(VERIF, 'harness', 'guestlib.c')
+        for lib in libs:
+            base = os.path.join(d, 'libguest_%d_base.so' % lib)
+            rc, so, se = sh(['gcc', '-shared', '-fPIC', '-O1', '-DLIBID=%d' % lib, src, '-o', base])
+            if rc != 0:
+                raise CannotDecide('cannot build guest library: ' + se[:300])
+            for i in indices:
+                import shutil
+                shutil.copy(base, os.path.join(d, 'libguest_%d_%d.so' % (lib, i)))
+        return d
+
     def build_many(self, specs):
         """specs: list of (name, src, kwargs). Parallel build."""
         outs = {}
